@@ -87,6 +87,19 @@ def gen(chk):
         elif which == 1: chk.add('sc_op %s %s %s #0' % (nm('mul'), h32(a), h32(a if r.chance(1, 2) else carry_pair_value(r))), 'sc_mul_carry_pair')
         elif which == 2: chk.add('fe_op %s %s %s #%d #0 #0' % (nm('sqr'), h32(a), h32(0), r.below(3)), 'fe_sqr_carry_pair')
         else: chk.add('fe_op %s %s %s #%d #%d #0' % (nm('mul'), h32(a), h32(a if r.chance(1, 2) else carry_pair_value(r)), r.below(3), r.below(3)), 'fe_mul_carry_pair')
+    # modular inversion (safegcd, 62- and 30-bit signed limbs): +-2^k and c*2^(62j), c*2^(30j) - values whose intermediate g
+    # has only its top limb non-zero, where the early-exit test of the variable-time version looks at the limbs
+    for k in range(0, 256):
+        for v in ((1 << k), -(1 << k)):
+            chk.add('fe_op %s %s %s #0 #0 #0' % (nm('inv'), h32(v % P), h32(0)), 'fe_inv_power_of_two')
+            chk.add('sc_op %s %s %s #0' % (nm('inverse'), h32(v % N), h32(0)), 'sc_inverse_power_of_two')
+    for w in (30, 62):
+        for j in range(1, 256 // w + 1):
+            for c in (1, 3, 5, (1 << (w - 1)) - 1, r.bits(w - 1) | 1):
+                v = (c << (w * j)) % (1 << 256)
+                for sgn in (1, -1):
+                    chk.add('fe_op %s %s %s #0 #0 #0' % (nm('inv'), h32((sgn * v) % P), h32(0)), 'fe_inv_top_limb_only')
+                    chk.add('sc_op %s %s %s #0' % (nm('inverse'), h32((sgn * v) % N), h32(0)), 'sc_inverse_top_limb_only')
     # x = 0 / sqrt of special values
     for v in (0, 1, 4, 7, P - 1, 2, 3, P - 7):
         chk.add('fe_op %s %s %s #0 #0 #0' % (nm('sqrt'), h32(v), h32(0)), 'fe_sqrt')
